@@ -159,7 +159,10 @@ func c16Years(c *ctx) {
 		// which shares this year's lunar year): a day's stars are what they were
 		again := []obj{}
 		try(func() {
-			if y < 9998 {
+			if y < 9990 {
+				// somewhere else first, then a January day of the next year (it shares this year's lunar year)
+				s0, _ := safeSolar(y+5, 7, 7, 12, 0, 0)
+				s0.GetLunar().GetDayNineStar()
 				s, _ := safeSolar(y+1, 1, 15, 12, 0, 0)
 				s.GetLunar().GetDayNineStar()
 			}
